@@ -153,8 +153,11 @@ pub fn run(desc: &Value, ctx: &Ctx) -> CaseOut {
             Some(x) => x,
             None => return out.inconclusive("decoder found no manifest in the target file"),
         };
-        if !view0.problems.is_empty() {
-            return out.inconclusive(format!("decoder reports layout problems before any rewrite (C14's concern): {}", view0.problems[0]));
+        // The decoder disagreeing with the freshly created file is C14's subject; the history is still run, judged by the
+        // library's own view (the manifest opens, check() is true, locations read back) and by the byte-level diff.
+        let decoder_agrees = view0.problems.is_empty();
+        if !decoder_agrees {
+            out.obs.inc("histories_on_files_the_decoder_already_disputes(C14)");
         }
         out.obs.set("manifest_offsets", format!("{}", view0.manifest_pack().map(|p| p.origin).unwrap_or(0)));
         let pristine = dump_container(&target, &plan);
@@ -265,7 +268,7 @@ pub fn run(desc: &Value, ctx: &Ctx) -> CaseOut {
                     return;
                 }
                 Some((v, infos)) => {
-                    if let Some(p) = v.problems.first() {
+                    if let (Some(p), true) = (v.problems.first(), decoder_agrees) {
                         fail(&mut out, "layout-rule", format!("independent decoder: {p}"));
                         return;
                     }
